@@ -63,6 +63,26 @@ class Stack(object):
     message = transmit
 
 
+def real_stack(stamper):
+    """A real (base) Stack that nobody services: whatever the exchange transmits stays queued on it.  The exchange's
+    messages are labels; each label is one Packet object (a retransmission hands the stack the same object again)."""
+    from ioflo.aio.proto import stacking, packeting
+    st = stacking.Stack(stamper=stamper, name="vfstack")
+    st.sent = []
+    pkts = {}
+    orig = st.transmit
+
+    def transmit(label, *pa, **kwa):
+        st.sent.append((Fraction(stamper.stamp), label))
+        if label not in pkts:
+            pkts[label] = packeting.Packet(stack=st, packed=str(label).encode("ascii"))
+        return orig(pkts[label])
+    st.transmit = transmit
+    st.message = transmit
+    st.vf_real = True
+    return st
+
+
 class Rig(object):
     def __init__(self, ctx):
         from ioflo.aio.proto import exchanging
@@ -74,12 +94,12 @@ class Rig(object):
         self.redo_kw = "redoTimeout" if "redoTimeout" in params else ("redoTimout" if "redoTimout" in params else None)
         self.timeout_kw = "timeout" if "timeout" in params else None
 
-    def build(self, cname, T, R, t0, tx=None):
+    def build(self, cname, T, R, t0, tx=None, real=False):
         """returns (exchange, stack, stamper) or None after reporting"""
         ctx = self.ctx
         cls = getattr(self.x, cname)
         stamper = self.timing.Stamper(stamp=float(t0))
-        stack = Stack(stamper)
+        stack = real_stack(stamper) if real else Stack(stamper)
         kw = {"device": Device(), "name": "vfx"}
         if tx is not None:
             kw["tx"] = tx
@@ -109,12 +129,12 @@ class Rig(object):
                   "a new exchange is already done or failed", lambda: {"class": cname})
         return ex, stack, stamper, wantT, wantR
 
-    def schedule(self, cname, T, R, t0, delay, steps, tag):
-        """steps: list of (advance, new_message_or_None).  One case."""
+    def schedule(self, cname, T, R, t0, delay, steps, tag, real=False):
+        """steps: list of (advance, new_message_or_None).  One case.  real: on a real, unserviced Stack"""
         ctx = self.ctx
         desc = {"class": cname, "timeout": str(T), "redo": str(R), "t0": str(t0), "delay": str(delay),
-                "steps": [(str(a), m) for a, m in steps]}
-        built = self.build(cname, T, R, t0, tx=("m0" if cname == "Exchange" else None))
+                "steps": [(str(a), m) for a, m in steps], "stack": "real Stack, not serviced" if real else "double"}
+        built = self.build(cname, T, R, t0, tx=("m0" if cname == "Exchange" else None), real=real)
         if built is None:
             ctx.case(desc, nontrivial=False)
             return
@@ -192,6 +212,12 @@ class Rig(object):
                          "messages queued on the stack differ from the model after process()", wit)
                 break
             ctx.check(True, "sent-agrees")
+            if real:
+                # nobody services the stack: every transmission so far is still queued on it, retransmissions included
+                ctx.hit("real_stack_steps")
+                if not ctx.check(len(stack.txPkts) == len(stack.sent), "Exchange/transmission-not-queued-on-the-stack",
+                                 "%d transmissions handed to the stack, %d packets queued on it" % (len(stack.sent), len(stack.txPkts)), wit):
+                    break
             if bool(ex.failed) != failed or bool(ex.done) != failed:
                 if Tm == 0 and ex.failed:
                     key = "timeout-zero-expired"
@@ -258,6 +284,9 @@ def worker(ctx, job):
                 delay = Q * rng.choice((0, 0, 1, 8, 40))
                 rig.schedule(cname, T, R, rng.choice((Fraction(0), Fraction(21, 2))), delay, steps, "random")
                 ctx.hit("random_schedules")
+                if k % 3 == 0:
+                    rig.schedule(cname, T, R, Fraction(0), delay, steps, "random", real=True)
+                    ctx.hit("random_schedules_on_a_real_stack")
                 if k == 0 and job["index"] % 7 == 0:
                     ctx.sample({"class": cname, "timeout": str(T), "redo": str(R), "delay_before_start": str(delay),
                                 "first_steps": [(str(a), m) for a, m in steps[:8]]})
@@ -288,3 +317,4 @@ def run(ctx):
     ctx.floor("process_with_timeout_zero", nact * 20)
     ctx.floor("new_message_sent", nrand * 20)
     ctx.floor("events", nact * 340)
+    ctx.floor("real_stack_steps", nact * nrand)
